@@ -82,6 +82,24 @@ fn account(sum: &mut Summary, scn: &Scenario, o: &Outcome) {
     for (k, v) in &g.q.recv_errors {
         sum.count(&format!("quiche_recv_error_{k}"), *v);
     }
+    // 1-RTT authentication failures on a path that never corrupts: either a datagram larger
+    // than the receive buffer was truncated (oversize class), or a packet reordered by more
+    // than half the 1-byte packet-number window was reconstructed 256 too high (RFC 9000 A.3;
+    // inherent, both sides conform) - anything else would be s2n-quic misreading a packet
+    let df = &g.s.decrypt_failed;
+    if df.total > 0 {
+        let truncation = g.net.max_len[0] > scn.s2n.max_mtu as usize;
+        sum.count("s2n_decrypt_failed_pn_window_alias", df.decoded_ahead_of_rx);
+        if truncation {
+            sum.count("s2n_decrypt_failed_truncated_oversize", df.total - df.decoded_ahead_of_rx);
+        } else {
+            sum.count("s2n_decrypt_failed_unexplained", df.total - df.decoded_ahead_of_rx);
+            if df.total > df.decoded_ahead_of_rx {
+                sum.set("s2n_decrypt_failed_unexplained_in", format!("seed {} index {}", scn.seed, scn.index));
+            }
+        }
+        sum.max("s2n_decrypt_failed_alias_ahead_max", df.max_ahead as i64);
+    }
     if let Some((c, _)) = &g.s.closed {
         sum.set("s2n_connection_closed", c.split(':').take(2).collect::<Vec<_>>().join(":"));
     }
@@ -226,7 +244,8 @@ fn main() {
             if machine_dependent {
                 // a timing bound counts only if it reproduces and the pacer kept up both times
                 let same = matches!((&o.verdict, &first_sig), (Verdict::Violation { signature, .. }, Some(f)) if signature == f);
-                let disturbed = o.pacer_lag_ms * 20 > o.virtual_ns / 1_000_000;
+                // "kept up" = real time ran ahead of virtual time by less than a quarter of the run
+                let disturbed = o.pacer_lag_ms * 4 > o.virtual_ns / 1_000_000;
                 if matches!(o.verdict, Verdict::Violation { .. }) && (!same || disturbed) {
                     o.verdict = Verdict::Inconclusive(format!(
                         "paced run hit a timing bound ({:?}) that did not reproduce cleanly (pacer lag {} ms)",
